@@ -32,7 +32,7 @@ META = {
     'components_stub': ['boto3 / S3 (in-memory bucket with paging)', 'uuid / clock'],
     'budgets': {'quick': {'seconds': 25}, 'thorough': {'seconds': 420}},
     'required_probes': {'thorough': ['cassette_memory', 'cassette_file', 'cassette_s3', 's3_empty_prefix', 'restart', 'unknown_id', 'metadata_only_fetch',
-                                     'shared_subobject', 'odd_key_text', 'concurrent_saves', 'failed_save']},
+                                     'shared_subobject', 'odd_key_text', 'concurrent_saves', 'concurrent_fetches', 'failed_save']},
 }
 
 
@@ -87,6 +87,57 @@ def concurrent_saves(run, tape, clock, store, flavour):
         except Exception as ex:
             run.violate('fetch_saved', 'get-raised:%s' % type(ex).__name__, 'get_recording(%s) after concurrent saves raised %r' % (rid, ex))
     run.ev('concurrent', store.describe(), sorted(saved), sim.switches)
+    good = [rid for rid in sorted(saved) if saved[rid][2] is None]
+    if len(good) >= 2 and not run.violations:
+        concurrent_fetches(run, tape, store, dict((rid, saved[rid][:2]) for rid in good))
+
+
+def concurrent_fetches(run, tape, store, saved):
+    """Several threads fetch (different and the same) recordings through ONE cassette object at the same time, with
+    pre-emption inside the serializer as well; every fetch must still return its own recording."""
+    import os
+    import jsonpickle
+    from simkit import REPO
+    from simkit.sim import Sim, SimDeadlock
+    sim = Sim(tape, run, preempt_p=tape.choice([0.01, 0.05, 0.2]),
+              target_prefixes=[os.path.join(REPO, 'playback', 'tape_cassettes'), os.path.join(REPO, 'playback', 'tape_cassette.py'),
+                               os.path.join(REPO, 'playback', 'recordings'), os.path.dirname(jsonpickle.__file__)], max_steps=400000)
+    reader = store.open(read_only=True)
+    rids = sorted(saved)
+    plan = [rids[tape.draw(len(rids))] for _ in range(2 + tape.draw(2))]
+    if len(set(plan)) == 1:
+        plan[0] = next(r for r in rids if r != plan[0])
+    got = {}
+    run.probe('concurrent_fetches')
+
+    def fetcher(n, rid):
+        def body():
+            try:
+                r = reader.get_recording(rid)
+                got[n] = (rid, r, reader.get_recording_metadata(rid), None)
+            except Exception as ex:
+                got[n] = (rid, None, None, ex)
+        return body
+
+    def main():
+        tasks = [sim.spawn(fetcher(n, rid), name='fetcher%d' % n) for n, rid in enumerate(plan)]
+        for t in tasks:
+            sim.join(t)
+    try:
+        sim.run_main(main)
+    except SimDeadlock as ex:
+        run.violate('fetch_saved', 'deadlock', str(ex))
+        return
+    for n in sorted(got):
+        rid, r, md, err = got[n]
+        data, metadata = saved[rid]
+        if err is not None:
+            run.violate('fetch_saved', 'concurrent-get-raised:%s' % type(err).__name__, 'get_recording(%s) raised %r while another thread was fetching through the same cassette' % (rid, err))
+            continue
+        compare(run, 'fetched while other threads were fetching', rid, r, data, metadata)
+        run.check(V.canon(md) == V.canon(metadata), 'metadata_alone_agrees', 'metadata-alone-differs-under-concurrency',
+                  lambda: 'get_recording_metadata(%s) under concurrency differs from the saved metadata' % rid)
+    run.ev('concurrent_fetches', store.describe(), plan, sim.switches)
 
 
 def run_tape(tape):
